@@ -10,8 +10,10 @@ CONSTANTS
   Plans = {"whole", "hdr", "pay"}
   Frames <- FramesQuick
   MaxFrames = 3
+  Pres = {"none"}
+  PushPays <- PushNone
 INIT MCInit
 NEXT MCNext
-INVARIANTS TypeOK Inv_Handshake Inv_WellFormedOut Inv_Delivered Inv_PingPong Inv_Close GenInv
-PROPERTIES NoneOnlyWhenNothing MsgIsNext
+INVARIANTS TypeOK Inv_Handshake Inv_WellFormedOut Inv_Delivered Inv_PingPong Inv_Close Inv_SockRestored Inv_Pushed GenInv
+PROPERTIES NoneOnlyWhenNothing MsgIsNext ErrorOnlyAtEof
 CHECK_DEADLOCK FALSE
